@@ -18,7 +18,7 @@ def tc(v, width):
 
 class AsmData:
     name = "asm_data"
-    props = ("C05", "C02", "C04", "C13")
+    props = ("C05", "C02", "C04", "C13", "C17")
 
     def cells(self, tier):
         out = []
